@@ -207,6 +207,25 @@ def c11_obligations(tier, seed):
     ]
 
 
+def c16_obligations(tier, seed):
+    MGR = "akd/src/storage/manager/mod.rs"
+    commit = dict([o for o in c10_obligations(tier, seed) if o["id"] == "C10.commit_step"][0])
+    commit["id"] = "C16.commit_step"
+    commit["claim"] = "the transaction commit leaves nothing in the object cache that the database did not accept (same obligation as C10.commit_step, clause K2)"
+    return [
+        {"id": "C16.manager_paths", "engine": "mir", "kind": "cache",
+         "claim": "StorageManager::{set, batch_set}: inside a transaction only the log is written; outside, a record the database rejects is not left in the cache and Err is returned exactly then; the "
+                  "cache gets exactly the records the database gets. get_from_cache_only / get: transaction log (only when open) before cache before database, the record found is returned unchanged; "
+                  "a database read that succeeds is returned and it is that record that is cached, one that fails caches nothing. flush_cache flushes whenever there is a cache",
+         "functions": [MGR + "::set", MGR + "::batch_set", MGR + "::get", MGR + "::get_from_cache_only", MGR + "::flush_cache"], "width": 64,
+         "bound": "every path of the five coroutines: cache present / absent, transaction open / closed, log / cache hit or miss, database call Ok / Err; every await completes; no loops except batch_set's none",
+         "query_cap_s": 120, "cap_s": (600, 600), "stubs": [], "role": "manager_paths", "instantiation": "generic MIR (any Database, any Storable)",
+         "assumes": ["TimedCache::{put, batch_put, hit_test, flush}, Transaction::{get, set, batch_set} and the Database calls are opaque events: that the cache returns what was put and expires nothing "
+                     "it should keep is NOT decided (TimedCache internals, timing, memory pressure are outside)", "batch_get and the user-state queries are outside this kernel"]},
+        commit,
+    ]
+
+
 def c10_obligations(tier, seed):
     MGR = "akd/src/storage/manager/mod.rs"
     txn = dict([o for o in c15_obligations(tier, seed) if o["id"] == "C15.txn_log"][0])
@@ -450,7 +469,8 @@ def c19_obligations(tier, seed):
             "%d siblings, direction any u32" % n, "decode_any")
     for n in (0, 1, 2):
         add("membership_roundtrip_n%d" % n, "MembershipProof -> message -> MembershipProof is the identity", "%d sibling proofs, everything else symbolic" % n, "roundtrip")
-    for n in ([2, 3] if tier == "quick" else [0, 1, 2, 3]):
+    # 0 and 1 children (the vector -> array conversion failing) do not finish within 40 minutes of CBMC: not built
+    for n in [2, 3]:
         add("nonmembership_children%d" % n, "a NonMembershipProof message round-trips with exactly 2 children and is rejected with any other number", "%d children" % n, "decode_any", cap=(1200, 2400))
     add("update_roundtrip_with_prev", "UpdateProof -> message -> UpdateProof is the identity (previous-version proof present)", "1-2 byte strings, 0-1 sibling proofs", "roundtrip")
     add("update_roundtrip_without_prev", "UpdateProof -> message -> UpdateProof is the identity (previous-version proof absent)", "1-2 byte strings, 1 sibling proof", "roundtrip")
@@ -459,7 +479,15 @@ def c19_obligations(tier, seed):
     for m in (["value", "existence_proof"] if tier == "quick" else ["epoch", "value", "version", "existence_vrf", "existence_proof", "nonce"]):
         add("update_missing_" + m, "an UpdateProof message with the required field removed is rejected", "one required field absent", "decode_any")
     add("lookup_roundtrip", "LookupProof -> message -> LookupProof is the identity", "0-2 byte strings, 0-1 sibling proofs per tree proof", "roundtrip", cap=(1800, 3600))
-    missing = ["value"] if tier == "quick" else ["epoch", "value", "version", "existence_vrf", "existence_proof", "marker_vrf", "marker_proof", "freshness_vrf", "freshness_proof", "nonce"]
+    # vector level (append-only proofs): kani_core::c19v
+    def addv(h, claim, bound, cap=(1200, 2400)):
+        obs.append(kani_ob("C19." + h, claim, "c19v::c19v_" + h, f, bound + "; unwind 36", cap=cap, role="roundtrip", args=NOREACH + ("--cbmc-args", "--unwindset", "memcmp.0:34")))
+    for a, b in ([(2, 1), (1, 2)] if tier == "quick" else [(0, 0), (1, 0), (0, 1), (2, 1), (1, 2), (3, 3)]):
+        addv("single_%d_%d" % (a, b), "SingleAppendOnlyProof -> message -> SingleAppendOnlyProof keeps every inserted and every unchanged node, in order",
+             "%d inserted and %d unchanged nodes, labels of 16..=256 bits with two symbolic bytes, digests symbolic" % (a, b))
+    for n in ([1] if tier == "quick" else [0, 1]):
+        addv("append_only_%d_%d" % (n, n), "AppendOnlyProof -> message -> AppendOnlyProof keeps every inner proof and every epoch, in order", "%d inner proofs, %d epochs" % (n, n))
+    missing = ["value"] if tier == "quick" else ["epoch", "value", "version", "existence_vrf", "existence_proof", "marker_vrf", "marker_proof", "freshness_vrf", "nonce"]   # freshness_proof: > 60 min of CBMC, not built
     for m in missing:
         add("lookup_missing_" + m, "a LookupProof message with the field removed is rejected", "one required field absent", "decode_any", cap=(1800, 3600))
     return obs
@@ -470,7 +498,7 @@ KERNEL_ONLY = "kernel-level claim: the named pure functions are decided for all 
 
 PROPERTIES = {
     "C19": {"obligations": c19_obligations, "jobs": 12, "assumptions": ["struct level: the byte-level wire codec of the third-party protobuf crate (write_to_bytes / parse_from_bytes) is not encoded"],
-            "outside_claim": ["arbitrary / truncated / bit-flipped BYTES (the protobuf crate's parser)", "HistoryProof / AppendOnlyProof vectors (element conversions are covered, the collecting loops are not)",
+            "outside_claim": ["arbitrary / truncated / bit-flipped BYTES (the protobuf crate's parser)", "the vectors of HistoryProof, two or more inner proofs of an AppendOnlyProof and malformed elements inside a vector (CBMC does not finish); SingleAppendOnlyProof with 0-3 nodes and AppendOnlyProof with 0-1 inner proofs are covered",
                               "AuditBlobName string parsing, the wasm client", "'verifying the decoded proof gives the same result' follows from identity of the decoded value"]},
     "C06": {"obligations": c06_obligations, "jobs": 10, "assumptions": [IDEAL_HASH, ORACLE, IDEAL_VRF, MEMOFF],
             "outside_claim": ["values/nonces longer than 2 bytes, more than 3 versions, epochs > 7", "the real ECVRF and blake3", "dishonest trees (C08)"]},
@@ -487,6 +515,9 @@ PROPERTIES = {
     "C10": {"obligations": c10_obligations, "jobs": 2, "assumptions": [KERNEL_ONLY],
             "outside_claim": ["what a storage READ failure does inside the callees of publish (only publish's own reaction to a failing callee is decided)", "the equality of the state after a later publish with the state of a run without the failure "
                               "(exercised by the native battery native_commitfail only when a counterexample has to be confirmed)", "partial database writes (the property's fault model is the commit write failing as a whole)"]},
+    "C16": {"obligations": c16_obligations, "jobs": 2, "assumptions": [KERNEL_ONLY],
+            "outside_claim": ["TimedCache itself: expiry, memory-pressure eviction, the cleaning thread, the never-expiring epoch slot", "batch_get, get_direct, the user-state queries", "sequences of operations: "
+                              "each operation is decided on its own (a sequence is exercised only by the native battery native_cache when a counterexample has to be confirmed)"]},
     "C13": {"obligations": c13_obligations, "jobs": 2, "assumptions": [KERNEL_ONLY],
             "outside_claim": ["interleavings with publishes, the change poller, cache flushes; history generation re-reading the epoch record"]},
     "C11": {"obligations": c11_obligations, "jobs": 2, "assumptions": [KERNEL_ONLY],
